@@ -96,16 +96,21 @@ _TEXT_SPECIALS = ['"', "'", "\\", "\x00", "\n", "\t", "Ã©", "ÃŸ", "æ—¥æœ¬", "ðŸ˜
                   "e\u0301", "\u212b", "\u2126", "=\u0338", "\u1100\u1161", "\ufb01", "\u2028", "\x85"]
 
 
-def texts(max_size=8):
-    alphabet = st.one_of(
+def texts(max_size=8, surrogates=False):
+    """surrogates=True adds unpaired UTF-16 surrogates: legal in a Python str and in JSON ("\\ud83d" - what json.loads yields for a
+    window title cut in the middle of an emoji), but not encodable as UTF-8, so only for text that travels as JSON (event data),
+    not for names that are bound to SQL parameters as they are (bucket ids, event ids)."""
+    parts = [
         st.sampled_from(_TEXT_SPECIALS),
         st.characters(min_codepoint=32, max_codepoint=126),
         st.characters(blacklist_categories=("Cs",)),
-    )
-    return st.lists(alphabet, max_size=max_size).map("".join)
+    ]
+    if surrogates:
+        parts.append(st.sampled_from(["\ud83d", "\udc00", "\ud800", "\udfff", "a"]))
+    return st.lists(st.one_of(*parts), max_size=max_size).map("".join)
 
 
-def json_scalars():
+def json_scalars(surrogates=False):
     return st.one_of(
         st.none(),
         st.booleans(),
@@ -113,21 +118,21 @@ def json_scalars():
         st.integers(-(2**63), 2**63 - 1),
         st.sampled_from([0.0, -0.0, 0.1, 1e-7, 1.5, -2.25, 1e16, 1e100, 5e-324, 1.7976931348623157e308, 3.141592653589793, 1 / 3]),
         st.floats(allow_nan=False, allow_infinity=False),
-        texts(),
+        texts(surrogates=surrogates),
     )
 
 
-def json_values(max_leaves=10):
+def json_values(max_leaves=10, surrogates=False):
     return st.recursive(
-        json_scalars(),
-        lambda ch: st.one_of(st.lists(ch, max_size=4), st.dictionaries(texts(5), ch, max_size=4)),
+        json_scalars(surrogates),
+        lambda ch: st.one_of(st.lists(ch, max_size=4), st.dictionaries(texts(5, surrogates), ch, max_size=4)),
         max_leaves=max_leaves,
     )
 
 
-def json_data(max_leaves=10):
-    """A JSON object (event data)."""
-    return st.dictionaries(texts(5), json_values(max_leaves), max_size=4)
+def json_data(max_leaves=10, surrogates=False):
+    """A JSON object (event data).  surrogates=True: strings and keys may contain unpaired surrogates (see texts)."""
+    return st.dictionaries(texts(5, surrogates), json_values(max_leaves, surrogates), max_size=4)
 
 
 def has_nested(v) -> bool:
